@@ -29,10 +29,10 @@ bool splinetable<Alloc>::remove_key(const char* key){
 		return (false);
 	
 	//remove the key
-	char_ptr_ptr tmp_aux=nullptr;
+	char_ptr_ptr* tmp_aux=nullptr;
 	try{
 		//first, shuffle all of the remaining keys and values into a temporary buffer
-		tmp_aux = new char_ptr[naux-1];
+		tmp_aux = new char_ptr_ptr[naux-1];
 		for (uint32_t j=0, k=0; j<naux; j++) {
 			if (j!=i)
 				tmp_aux[k++]=aux[j];
@@ -51,6 +51,7 @@ bool splinetable<Alloc>::remove_key(const char* key){
 		aux = allocate<char_ptr_ptr>(naux);
 		//copy back remaining keys and values
 		std::copy_n(&tmp_aux[0],naux,&aux[0]);
+		delete[] tmp_aux;
 	}catch(...){
 		delete[] tmp_aux;
 		throw;
